@@ -175,7 +175,7 @@ func (tf *typeFormatter) emptyValueForType(def ast.Type) string {
 				enumValue, _ = enum.MemberForValue("")
 			}
 
-			return fmt.Sprintf("%s.%s", referredObj.Name, tools.UpperSnakeCase(enumValue.Name))
+			return fmt.Sprintf("%s.%s", referredObj.Name, formatEnumMemberName(enumValue.Name))
 		}
 
 		return fmt.Sprintf("new %s()", tf.config.formatPackage(refDef))
@@ -300,7 +300,7 @@ func (tf *typeFormatter) formatDisjunctionValue(object ast.Object, value any) st
 func (tf *typeFormatter) formatEnumValue(obj ast.Object, val any) string {
 	member, _ := obj.Type.AsEnum().MemberForValue(val)
 
-	return fmt.Sprintf("%s.%s", obj.Name, tools.UpperSnakeCase(member.Name))
+	return fmt.Sprintf("%s.%s", obj.Name, formatEnumMemberName(member.Name))
 }
 
 func (tf *typeFormatter) objectNeedsCustomSerializer(obj ast.Object) bool {
@@ -389,7 +389,7 @@ func (tf *typeFormatter) enumFromConstantRef(def ast.ConstantReferenceType) stri
 			return fmt.Sprintf("%s.%s.%s", refPkg, def.ReferredType, enumVale.Name)
 		}
 
-		return fmt.Sprintf("%s.%s", def.ReferredType, tools.UpperSnakeCase(enumVale.Name))
+		return fmt.Sprintf("%s.%s", def.ReferredType, formatEnumMemberName(enumVale.Name))
 	}
 
 	return "unknown"
